@@ -38,7 +38,11 @@ T  == Traces[tid]
 Ev == T.events
 
 EventOf == [expanded |-> "Expand", tin |-> "TmgrIn", ain |-> "AgentIn", exec |-> "Exec",
-            aout |-> "AgentOut", tout |-> "TmgrOut"]
+            aout |-> "AgentOut", tout |-> "TmgrOut", new |-> "Env"]
+
+\* one generation of tasks gives six events; a case with a second generation
+\* gives the environment step and six more (same stager objects)
+NEv == IF inp.g2 = "none" THEN 6 ELSE 13
 
 Err(cond, name) == IF cond THEN {} ELSE {name}
 
@@ -93,7 +97,8 @@ Conform(e, F, S) ==
   \cup Err(\A t \in Tasks : S[t] = e.st[t], "M.State." \o e.ev)
 
 \* e: the event, the other arguments: the model's state after its action
-Check(e, EE, F, S, L, P) ==
+\* b: index of the event before the current generation's first one
+Check(e, EE, F, S, L, P, b) ==
   IF Mode = "conform" THEN Conform(e, F, S) ELSE
   (CASE e.ev = "Expand" ->
           Err(/\ e.dirs.A.din = EE["A"].din /\ e.dirs.A.dout = EE["A"].dout
@@ -102,11 +107,11 @@ Check(e, EE, F, S, L, P) ==
           UNION {Verdict(e, L, F, t, "in", S[t] = "failed", e.st[t] = "failed") : t \in Tasks}
      [] e.ev = "TmgrOut" ->
           UNION {
-            IF ~P[t] \/ Ev[3].st[t] = "failed" THEN {}           \* judged after input staging
+            IF ~P[t] \/ Ev[b + 3].st[t] = "failed" THEN {}           \* judged after input staging
             ELSE IF Oc(t) = "DONE"
                  THEN Verdict(e, L, F, t, "out", S[t] = "failed", e.st[t] = "failed")
             ELSE IF ~Soe(t)          \* FAILED or CANCELED, no staging on error: nothing happens,
-                 THEN Err(NotBFiles(e) = NotBFiles(Ev[4])        \* and nothing can fail
+                 THEN Err(NotBFiles(e) = NotBFiles(Ev[b + 4])        \* and nothing can fail
                           /\ (Oc(t) = "CANCELED" => e.st[t] # "failed"), "C11.OutOnlyIfDone")
             ELSE IF DirErrs(e, L, F, t, "out") # {} THEN {"N.StageOnErrorNotCarriedOut"} ELSE {}
             : t \in Tasks}
@@ -119,11 +124,11 @@ Init ==
   /\ l = 1 /\ errs = {} /\ fin = FALSE
 
 Step ==
-  /\ ~fin /\ Len(Ev) = 6 /\ l <= Len(Ev)
+  /\ ~fin /\ Len(Ev) = NEv /\ l <= Len(Ev)
   /\ Next
   /\ l' = l + 1 /\ fin' = FALSE /\ UNCHANGED tid
   /\ errs' = errs \cup Err(Ev[l].ev = EventOf[stage'], "X.EventOrder")
-                  \cup Check(Ev[l], E', fs', st', log', passedIn')
+                  \cup Check(Ev[l], E', fs', st', log', passedIn', IF gen' = 2 THEN 7 ELSE 0)
 
 \* I.*: what the model did with the case (used to classify a failing trace)
 Info ==
@@ -132,9 +137,9 @@ Info ==
   \cup {"I.Did." \o log[n].kind : n \in {m \in 1 .. Len(log) : log[m].t = "A"}}
 
 Finish ==
-  /\ ~fin /\ (Len(Ev) # 6 \/ l > Len(Ev))
+  /\ ~fin /\ (Len(Ev) # NEv \/ l > Len(Ev))
   /\ fin' = TRUE
-  /\ PrintT(<<"RESULT", T.tid, errs \cup Info \cup Err(Len(Ev) = 6, "X.EventCount")>>)
+  /\ PrintT(<<"RESULT", T.tid, errs \cup Info \cup Err(Len(Ev) = NEv, "X.EventCount")>>)
   /\ UNCHANGED <<tid, l, errs>> /\ UNCHANGED svars
 
 MNext == Step \/ Finish
